@@ -24,9 +24,9 @@ def canon_files(arch):
 def run(ctx):
     quick = ctx.tier == "quick"
     n, nsteps = (14, 7) if quick else (200, 14)
-    ctx.cov["rule"] = ("random histories (source changes, backups with random options, deletes, gc; no kills) each replayed into fresh archives "
+    ctx.cov["rule"] = ("random histories (source changes, backups with random options, deletes, gc) each replayed into fresh archives "
                        "under four runtime flavours (current-thread, multi-thread with 1, 2 and 8 workers): same set of files, byte-identical "
-                       "contents except start_time/end_time in heads and tails; the model's final state (a function of the history by "
+                       "contents except start_time/end_time in heads and tails; + histories in which a delete or a backup is killed at a fixed storage operation (what it leaves behind, the lock file included, compared the same way); the model's final state (a function of the history by "
                        "construction) equals each of them. non-trivial = distinct history with >= 2 backups")
     cases = []
     groups = []
@@ -182,6 +182,34 @@ def run(ctx):
             ids.append(cid)
             cases.append({"id": cid, "steps": st2, "marks": marks_})
         groups.append((f"z{t}", base_steps, marks_, ids))
+    # histories in which an operation is killed at a fixed point (named by the storage operation it is about to make, so the
+    # same in every replay): a delete dying with the lock held, a backup dying before its tail; what they leave behind, lock
+    # file included, must be the same bytes in every replay
+    for t in range(3 if quick else 12):
+        def fk(d, m):
+            return {"k": "f", "data": d.hex(), "mode": 0o644, "mtime": 10**18 + m}
+        ta = {"k": "d", "mode": 0o755, "mtime": 10**18, "c": {"a": fk(b"first-a", 1), "b": fk(b"first-b", 2)}}
+        tb = {"k": "d", "mode": 0o755, "mtime": 10**18, "c": {"a": fk(b"second-a", 11), "c": fk(b"second-c", 12)}}
+        oo = {"meph": ctx.rng.choice([1, 100000]), "mbs": 64, "sfc": ctx.rng.choice([0, 16])}
+        kill_delete = [["RemoveDirAll", "b0000", 0, "crash"], ["ListDir", "d", 0, "crash"], ["Write", "GC_LOCK", 0, "crash_empty"]][t % 3]
+        kill_backup = [["Write", "b0002/BANDTAIL", 0, "crash"], ["Write", "b0002/BANDHEAD", 0, "crash_empty"], ["CreateDir", "b0002/i", 0, "crash"]][(t // 3) % 3]
+        steps = [{"op": "init"}, {"op": "mktree", "path": "src", "tree": ta}, {"op": "backup", "opts": oo},
+                 {"op": "mktree", "path": "src", "tree": tb}, {"op": "backup", "opts": oo}, {"op": "arch"},
+                 {"op": "delete", "bands": [0], "plan": {"rules": [kill_delete]}}, {"op": "arch"},
+                 {"op": "delete", "bands": [], "break_lock": True}, {"op": "arch"},
+                 {"op": "backup", "opts": oo, "plan": {"rules": [kill_backup]}}, {"op": "arch"},
+                 {"op": "backup", "opts": oo}, {"op": "arch"}]
+        marks = [{"kind": k} for k in ("init", "mktree", "backup", "mktree", "backup", "arch", "delete", "arch", "delete", "arch", "backup", "arch", "backup", "arch")]
+        ids = []
+        for rt in ("current", "multi2", "multi8"):
+            st2 = copy.deepcopy(steps)
+            for s_ in st2:
+                if s_["op"] in ("backup", "delete", "init"):
+                    s_["runtime"] = rt
+            cid = f"k{t}_{rt}"
+            ids.append(cid)
+            cases.append({"id": cid, "steps": st2, "marks": marks})
+        groups.append((f"k{t}", steps, marks, ids))
     res = ctx.cvh_run(cases, timeout=3000)
     hs = []
     for t, steps, marks, ids in groups:
@@ -215,7 +243,7 @@ def run(ctx):
         if sum(1 for m in marks if m["kind"] == "backup") >= 2:
             ctx.nontrivial(json.dumps([m["kind"] + str(m.get("ids") or "") for m in marks if m["kind"] in ("backup", "delete")]))
         if isinstance(t, str):
-            ctx.dist("many_small_files_histories")
+            ctx.dist("killed_operation_histories" if t.startswith("k") else "many_small_files_histories")
             continue
         # the model against the multi-threaded run (traces are compared without the concurrently issued groups' order)
         cid, archs, r = finals[2]
